@@ -21,7 +21,7 @@ CHECKS = {
          'bounded run-time contract with independent DDL reader'),
  'C05': ('other', 'P: lookup/back-pointer contracts (Database.table_dict, __getitem__, add_*, Table.add_column/add_index/__getitem__, note setters) discharged by z3; '
          'B (bounded): identity predicates on parsed databases with varied addressing', '3/C05', 'contracts (PyVC+z3) + bounded identity checks on parsed databases'),
- 'C06': ('other', 'P: exceptional postconditions (raises iff rule broken, heap unchanged) of Database.add_table/add_enum/add_table_group/add_reference/add and Table.__getitem__ discharged by z3; '
+ 'C06': ('proof', 'P: exceptional postconditions (raises iff rule broken, heap unchanged) of Database.add_table/add_enum/add_table_group/add_reference/add and Table.__getitem__ discharged by z3; '
          'document-level spellings are covered by the bounded C01/C05 domains', '3/C06', 'exceptional postconditions (PyVC+z3)'),
  'C08': ('other', 'B (bounded): outcome of parse/.dbml/.sql is in the allowed exception set over exhaustive token soups, site fills and seeded mutations', '3/C08',
          'bounded run-time contract on the real entry points'),
